@@ -61,6 +61,49 @@ def manifest_rmw(ctx, prog, rid, lm):
     ctx.floor(rid, 'manifest read-modify-write pairs', n_rmw, 3, 'rotate_wal_if_needed (1) + create_snapshot (2)')
 
 
+def alloc_to_apply(ctx, prog, lm, rid):
+    """In every mutator the snapshot lock is held (shared) from the allocation of a sequence number to the in-memory apply (shared: C09.R1, and C01.R11 — a snapshot
+    records last_wal_seq = next − 1 and recovery skips everything up to it, so an allocated number whose effect is not yet in the store when the snapshotter reads
+    both is an acknowledged write that neither the snapshot nor the replay contains).  Returns the number of allocation sites."""
+    def held(body, bb):
+        return lm.held_at(body, bb, must=True)
+    n_fa = 0
+    for name in MUTATORS:
+        f = ctx.body(rid, name)
+        o = flow.Origin(f)
+        fas = [c for c in f.calls if c.callee and re.search(r'Atomic.*::fetch_add$', c.callee) and c.args
+               and 'PersistenceState.next_wal_seq' in flow.render(o.of_operand(c.args[0]))]
+        for k, c in enumerate(fas):
+            n_fa += 1
+            h = held(f, c.bb)
+            ok = SNAP in h
+            ctx.inst(rid, f.short, 'snapshot_lock held at fetch_add #%d' % k, ok,
+                     'next_wal_seq.fetch_add at %s: held = %s' % (c.loc, {k_: v[0] for k_, v in h.items()}))
+        if not fas:
+            ctx.missing(rid, '%s: next_wal_seq.fetch_add' % name)
+        # the guard is an Option (no persistence → no lock, and no sequence / log either): it must be None ONLY when there is no persistence — any further
+        # condition on it (a configuration switch, a fast path) lets a snapshot capture (seq, store) between this writer's allocation and its apply
+        for c in fas[:1]:
+            h = held(f, c.bb)
+            if SNAP in h and h[SNAP][1]:
+                prod = [x for x in f.calls if x.loc == h[SNAP][2] and x.dest is not None and f.locals[x.dest['l']].startswith('core::option::Option<') and 'Guard<' in f.locals[x.dest['l']]]
+                src = flow.render(o.of_operand(prod[0].args[0])) if prod and prod[0].args else '?'
+                ok = bool(prod) and prod[0].callee and flow.short(prod[0].callee).endswith('Option::map') and \
+                    re.match(r'^(Option::as_ref\()?arg:self→HnswBackend\.persistence\)?$', src) is not None
+                ctx.inst(rid, f.short, 'the optional snapshot-lock guard is absent only when persistence is absent', ok,
+                         'guard produced by %s over %s%s' % (flow.short(prod[0].callee) if prod and prod[0].callee else '?', src[:120],
+                                                             '' if ok else ' — the guard can be None while a sequence number is allocated and logged'))
+        k = 0
+        for bb, a in sorted(lm.body_acqs.get(f.id, {}).items()):
+            if a.cls in ('HnswBackend.doc_store', 'HnswBackend.index') and a.mode in ('W', 'U'):
+                h = held(f, bb)
+                ok = SNAP in h
+                ctx.inst(rid, f.short, 'snapshot_lock still held at %s.write() #%d' % (a.cls, k), ok,
+                         '%s.write() at %s: held = %s' % (a.cls, a.call.loc, {k_: v[0] for k_, v in h.items()}))
+                k += 1
+    return n_fa
+
+
 def run(ctx, prog):
     ctx.not_decided = ['the interleavings themselves; only the lock discipline that makes them safe']
     lm = LockModel(prog)
@@ -71,40 +114,7 @@ def run(ctx, prog):
     # ------------------------------------------------------------------ R1
     ctx.rule('C09.R1', 'in every mutator the snapshot lock is held (shared) at each next_wal_seq.fetch_add and is still held at '
                        'every exclusive acquisition of doc_store / index that follows (allocation → apply)')
-    n_fa = 0
-    for name in MUTATORS:
-        f = ctx.body('C09.R1', name)
-        o = flow.Origin(f)
-        fas = [c for c in f.calls if c.callee and re.search(r'Atomic.*::fetch_add$', c.callee) and c.args
-               and 'PersistenceState.next_wal_seq' in flow.render(o.of_operand(c.args[0]))]
-        for k, c in enumerate(fas):
-            n_fa += 1
-            h = held(f, c.bb)
-            ok = SNAP in h
-            ctx.inst('C09.R1', f.short, 'snapshot_lock held at fetch_add #%d' % k, ok,
-                     'next_wal_seq.fetch_add at %s: held = %s' % (c.loc, {k_: v[0] for k_, v in h.items()}))
-        if not fas:
-            ctx.missing('C09.R1', '%s: next_wal_seq.fetch_add' % name)
-        # the guard is an Option (no persistence → no lock, and no sequence / log either): it must be None ONLY when there is no persistence — any further
-        # condition on it (a configuration switch, a fast path) lets a snapshot capture (seq, store) between this writer's allocation and its apply
-        for c in fas[:1]:
-            h = held(f, c.bb)
-            if SNAP in h and h[SNAP][1]:
-                prod = [x for x in f.calls if x.loc == h[SNAP][2] and x.dest is not None and f.locals[x.dest['l']].startswith('core::option::Option<') and 'Guard<' in f.locals[x.dest['l']]]
-                src = flow.render(o.of_operand(prod[0].args[0])) if prod and prod[0].args else '?'
-                ok = bool(prod) and prod[0].callee and flow.short(prod[0].callee).endswith('Option::map') and \
-                    re.match(r'^(Option::as_ref\()?arg:self→HnswBackend\.persistence\)?$', src) is not None
-                ctx.inst('C09.R1', f.short, 'the optional snapshot-lock guard is absent only when persistence is absent', ok,
-                         'guard produced by %s over %s%s' % (flow.short(prod[0].callee) if prod and prod[0].callee else '?', src[:120],
-                                                             '' if ok else ' — the guard can be None while a sequence number is allocated and logged'))
-        k = 0
-        for bb, a in sorted(lm.body_acqs.get(f.id, {}).items()):
-            if a.cls in ('HnswBackend.doc_store', 'HnswBackend.index') and a.mode in ('W', 'U'):
-                h = held(f, bb)
-                ok = SNAP in h
-                ctx.inst('C09.R1', f.short, 'snapshot_lock still held at %s.write() #%d' % (a.cls, k), ok,
-                         '%s.write() at %s: held = %s' % (a.cls, a.call.loc, {k_: v[0] for k_, v in h.items()}))
-                k += 1
+    n_fa = alloc_to_apply(ctx, prog, lm, 'C09.R1')
     ctx.floor('C09.R1', 'next_wal_seq.fetch_add sites', n_fa, 5, '5 by hand (insert ×2, delete, update_metadata, batch_delete)')
 
     # the pre-flight is inside the critical section too: every acquisition of doc_store in a mutator — also the shared one that maps ids to slots and
